@@ -29,6 +29,8 @@ def show_ops(ops):
             out.append(f"SLEEP({o[1]})")
         elif o[0] == "HIDE":
             out.append(f"HIDE(seg#{o[1]},t{o[2]})")
+        elif o[0] == "CSNAP" and len(o) > 1:
+            out.append(f"CSNAP({o[1]})")
         elif o[0] in ("BGC", "JOINC", "JOIN", "SETTLE", "UNHIDE", "CSNAP", "DRAIN", "KR", "FAILIDX", "UNFAILIDX"):
             out.append(o[0])
         elif o[0] == "WAITMORE":
